@@ -48,9 +48,9 @@ CONSTANTS MaxH,      \* heights to commit in one behaviour
           MaxTrie,   \* the application writes 1..MaxTrie trie node batches per commit
           KvHeights, \* heights whose block carries kv transactions (extra kv-history batch)
           ValHeights,\* heights whose block changes the validator set (admin transaction)
-          Legacy,    \* TRUE = code before fix d0c1f76/317fcb9 (no completion step, lastblock before receipts)
-          KvIdem,    \* FALSE = code before fix d7644ec (kv history appended again on re-execution)
-          SwapVals   \* TRUE = code before fix dd5278f (LoadIntermediate swaps Validators / LastValidators)
+          Legacy,    \* TRUE = code before fix 7ae3f0c/0bf6af3 (no completion step, lastblock before receipts)
+          KvIdem,    \* FALSE = code before fix 8eeaa6a (kv history appended again on re-execution)
+          SwapVals   \* TRUE = code before fix 2096131 (LoadIntermediate swaps Validators / LastValidators)
 
 VARIABLES
   \* ---------------- durable
@@ -250,7 +250,7 @@ Plugin ==
   /\ Running("Plugin") /\ plug' = plug \cup {csH} /\ pc' = "StInterProp"
   /\ UNCHANGED <<prop, wal, signer, bs, desc, inter, stkey, trie, rcpt, kvh, lastRcpt, appLast,
                  mode, i, sg, mStore, mState, csH, csR, csBlk, exRoot, hist>>
-\* State.saveProposer (fix 8534ce2): the proposer cached in the validator set, tagged with the height, is
+\* State.saveProposer (fix 2ccc403): the proposer cached in the validator set, tagged with the height, is
 \* written immediately before the state record it belongs to; loadState ignores a record with another height
 StInterProp ==
   /\ Running("StInterProp") /\ prop' = [prop EXCEPT !.inter = csH] /\ pc' = "StInter"
@@ -354,7 +354,7 @@ R_GenSave ==
 InterFits(st) == inter # NoState /\ inter.h = st.h + 1 /\ inter.root = st.root /\ inter.rh = st.rh
                  /\ inter.lvals = st.vals
 
-\* Angine.completeInterruptedCommit (fix d0c1f76): application committed H, State.Save() did not happen
+\* Angine.completeInterruptedCommit (fix 7ae3f0c): application committed H, State.Save() did not happen
 R_Complete ==
   /\ Rec("r_complete")
   /\ IF mStore # 0 /\ mState.h + 1 = mStore /\ appLast.h = mStore
